@@ -258,6 +258,26 @@ SNIPPETS = [
 ]
 
 
+# deterministic family for the end-to-end pass: error paths with their own line handling (explicit line override:
+# incomplete-match; errors raised while evaluating an annotation given as text, which are logged from a compiled
+# snippet and re-emitted at the real line; an error on line 1 of the file; function type comments; decorators;
+# implicit returns).  Every error of every program is edited with every directive kind.
+FAMILY = [
+    'v0 = undefined_name0\ndef sa(x: "Undef1"): pass\nv: "Lisst[int]" = []\ndef f():\n  w: "Undef2" = 1\n  return w\n'
+    'def h(y) -> "Undef4":\n  return y\n',
+    'v0 = (1).foo\nfrom typing import List\nw: "List[Undef1]" = []\nz: "List[int, int]" = []\n',
+    'from typing import Literal\ndef im(x: Literal["a", "b"]):\n  match x:\n    case "a":\n      return (1).foo\n'
+    '  return (2).bar\nv = (3).baz\n',
+    'from typing import Literal\ndef im(x: Literal["a", "b", "c"], y: Literal[1, 2]):\n  match x:\n    case "a":\n      pass\n'
+    '  match y:\n    case 1:\n      return undefined_q\n',
+    'def g(a):\n  # type: (str) -> int\n  return a\nx = g(1)\ny = g("s",\n      2)\n',
+    'x = 1\n# type: int\ndef h(a: int):\n  # type: (int) -> int\n  return a.nope\n',
+    'def dec(*a):\n  def w(fn):\n    return fn\n  return w\n@dec((1).foo,\n     (2).bar)\nclass K:\n  z: int = "s"\n'
+    '  def m(self) -> int:\n    print(self.nope,\n          self.nope2)\n',
+    'def r(x) -> int:\n  if x:\n    return "s"\n  print(x.real,\n        (1).foo)\n',
+]
+
+
 def gen_error_program(rng, n_snippets=None):
   n = n_snippets if n_snippets is not None else rng.randrange(1, 5)
   body = []
